@@ -26,7 +26,7 @@ def run(ctx):
     f = ctx.facts
     B = hirq.Body(f, f.body(P))
     ctx.analysed['bodies'].add(P)
-    outs = [o for o in absx.Interp(f, B, unroll=1, for_once=True, result_combinators=True).run() if o.kind in ('val', 'ret') and o.val[0] == 'struct']
+    outs = [o for o in absx.Interp(f, B, unroll=1, for_once=True, result_combinators=True, combinators=True).run() if o.kind in ('val', 'ret') and o.val[0] == 'struct']
     ctx.floor('V', 'returning paths', len(outs), 2)
     seen = set()
     for o in outs:
